@@ -31,10 +31,6 @@ MsgIdMap == [k \in MsgKeys |-> Defs.msgids[CHOOSE i \in 1..Len(Defs.msgids) : De
 ClassKeys == {Defs.classes[i].key : i \in 1..Len(Defs.classes)}
 ClassMap == [k \in ClassKeys |-> Defs.classes[CHOOSE i \in 1..Len(Defs.classes) : Defs.classes[i].key = k].name]
 
-HexDigits == "0123456789abcdef"
-HexDigit(n) == SubSeq(HexDigits, n + 1, n + 1)
-Hex2(b) == HexDigit(b \div 16) \o HexDigit(b % 16)
-
 StartsWith(s, p) == Len(s) >= Len(p) /\ SubSeq(s, 1, Len(p)) = p
 
 (***************************************************************************)
